@@ -122,8 +122,8 @@ def mkFunc (recv : Option Recv) (name : Bytes) (params results : GoFields) (body
 
 /-! ## declarations, in source order -/
 
-def aliasView : Member → Option (List Decl)
-  | .alias n _ ty => (goTy ty true).map (fun t => [if isAliasDecl ty then .alias n t else .type n t])
+def aliasView (idl : Idl) : Member → Option (List Decl)
+  | .alias n _ ty => (goTy ty true).map (fun t => [if resolvesToObject idl ty then .alias n t else .type n t])
   | _ => some []
 
 def fieldUses : Fields → List Stmt
@@ -304,7 +304,7 @@ def assembleFile (t : Idl) (body : Bytes) (aliases errors clients : List Decl) (
 
 def genFile (t : Idl) : Option GoFile :=
   match bodyText t,
-        concatOptL aliasView t.aliases, concatOptL errorView t.errors,
+        concatOptL (aliasView t) t.aliases, concatOptL errorView t.errors,
         concatOptL (methodClientView t.name) t.methods, concatOptL ifaceMethodView t.methods,
         concatOptL (errorReplyView t.name) t.errors, concatOptL methodReplyView t.methods,
         concatOptL (dummyView t.name) t.methods, concatOptL (dispatchCaseView (pkgName t.name)) t.methods with
